@@ -576,8 +576,9 @@ fn rand_positions(rng: &mut Rng, n: usize) -> Vec<(u32, u32)> {
 fn rand_book(rng: &mut Rng) -> XlsxBook {
     let mut book = XlsxBook::new();
     book.num_fmts = custom_fmts();
-    let nxf = rng.range(1, 6) as usize;
-    book.cell_xfs = (0..nxf).map(|_| rng.pick(XF_CHOICES).0).collect();
+    // General (id 0) entries interleaved with date / elapsed / custom entries: a style index counts <xf> elements
+    let nxf = rng.range(1, 8) as usize;
+    book.cell_xfs = (0..nxf).map(|_| if rng.chance(2, 5) { 0 } else { rng.pick(XF_CHOICES).0 }).collect();
     book.date1904 = *rng.pick(&[None, None, Some(false), Some(true)]);
     let ns = rng.range(1, 4);
     let mut names: Vec<String> = vec![];
@@ -912,7 +913,7 @@ impl Mods {
     }
 }
 
-const KNOB_GROUPS: usize = 12;
+const KNOB_GROUPS: usize = 14;
 
 fn reset_knob(l: &mut Layout, k: usize) {
     let p = Layout::plain();
@@ -940,7 +941,14 @@ fn reset_knob(l: &mut Layout, k: usize) {
             l.pct_noise = 0;
             l.pct_t_n = 0;
         }
-        _ => l.pct_write_blank = 100,
+        11 => l.pct_write_blank = 100,
+        12 => l.pct_xf_omit_general = 0,
+        _ => {
+            l.pct_styles_noise = 0;
+            l.pct_attr_shuffle = 0;
+            l.pct_attr_extra = 0;
+            l.pct_t_n_styled = 0;
+        }
     }
 }
 
@@ -1050,6 +1058,8 @@ fn file_case(seed: u64, rep: &mut Report, drv: &mut Driver) {
     rep.count(&format!("knob:target:{:?}", layout.target));
     rep.count(&format!("knob:zip:{:?}", layout.compression));
     rep.count(&format!("knob:dim:{:?}", layout.dimension));
+    rep.count(&format!("knob:xf-omit-general:{}", layout.pct_xf_omit_general));
+    rep.count(&format!("knob:styles-noise:{}", layout.pct_styles_noise));
     for sh in &book.sheets {
         for c in sh.cells.values() {
             rep.count(match c.value {
@@ -1142,6 +1152,28 @@ fn corpus_case(name: &str) -> Option<(XlsxBook, Layout)> {
             l.dimension = xlsxw::DimMode::Inaccurate;
             l.pct_lower_ref = 100;
         }
+        // seeded change C01-m4: an <xf> without the optional numFmtId attribute still owns its style index
+        "xf-without-numfmtid" => {
+            book.num_fmts = custom_fmts();
+            book.cell_xfs = vec![0, 0, 14, 0, 166, 165];
+            sh.set(0, 0, XCell::num("44197").with_style(2));
+            sh.set(0, 1, XCell::num("1.5").with_style(3));
+            sh.set(0, 2, XCell::num("0.75").with_style(4));
+            sh.set(0, 3, XCell::num("2").with_style(5));
+            sh.set(0, 4, XCell::num("3").with_style(1));
+            l.pct_xf_omit_general = 100;
+        }
+        // the structure around the format table is not the format table
+        "styles-noise" => {
+            book.num_fmts = custom_fmts();
+            book.cell_xfs = vec![0, 14, 165, 164, 46];
+            for i in 0..5u32 {
+                sh.set(1, i, XCell::num("44197.25").with_style(i));
+            }
+            l.pct_styles_noise = 100;
+            l.pct_xf_omit_general = 100;
+            l.seed = 7;
+        }
         "blank-only" => {
             sh.set(3, 3, XCell::new(XVal::Empty).with_style(0));
         }
@@ -1159,7 +1191,7 @@ fn corpus_case(name: &str) -> Option<(XlsxBook, Layout)> {
 
 const CORPUS: &[&str] = &[
     "d20-empty-si", "d21-prefixed-rich", "d21-prefixed-rich-inline", "d22-prefixed-workbookpr", "d23-rel-prefix", "implicit-refs", "corners", "blank-only",
-    "upper-parts", "raw:row-cursor-overflow", "raw:col-cursor-overflow", "raw:sst-index-out-of-range", "raw:reversed-dimension", "raw:overlong-ref",
+    "upper-parts", "xf-without-numfmtid", "styles-noise", "raw:row-cursor-overflow", "raw:col-cursor-overflow", "raw:sst-index-out-of-range", "raw:reversed-dimension", "raw:overlong-ref",
 ];
 
 /// hand-written worksheet parts (events) for the malformed-input regressions
